@@ -200,6 +200,24 @@ type Key struct {
 }
 
 // ParseKey splits a key string.
+// RealName is the Go string a model-level name stands for. The name "q" is realised with a
+// double quote in it (dig forbids only backquotes in names): whatever dig prints it in (DOT
+// node ids, Info strings, error texts) has to quote it properly.
+func RealName(n string) string {
+	if n == "q" {
+		return "q\"x"
+	}
+	return n
+}
+
+// ModelName inverts RealName.
+func ModelName(n string) string {
+	if n == "q\"x" {
+		return "q"
+	}
+	return n
+}
+
 func ParseKey(k string) Key {
 	if i := strings.IndexByte(k, '/'); i >= 0 {
 		return Key{T: k[:i], Name: k[i+1:]}
